@@ -185,6 +185,30 @@ def run_case(case) -> dict:
                     f[f"C04:plaintext-differs:single-recipient"] = f"recipient {i} ({algs[i]}) decrypts different plaintext"
             except Exception as e:
                 f[f"C04:single-recipient-decrypt-raises:{exc_key(e)}"] = f"recipient {i} ({algs[i]}) cannot decrypt alone: {type(e).__name__}: {e}"
+    # open - amend - re-seal (JSON serializations): the returned object gets another protected member and is encrypted again
+    if plan["ser"] != "compact" and plan["zip"] is None and not f:
+        from joserfc import jwe
+        from gens.jose import jkey
+        from gens import keys as gk
+        from ref import keys as rk
+        try:
+            obj.protected["cty"] = "amended"
+            for r, rec in zip(obj.recipients, plan["recipients"]):
+                kref = gk.key_from_record(rec["key"])
+                r.recipient_key = jkey(kref if kref["kty"] == "oct" else rk.public_of(kref), "dict", kref["kty"] == "oct")
+                r.sender_key = None
+                if r.header:
+                    for m in ("epk", "iv", "tag", "p2s", "p2c"):
+                        r.header.pop(m, None)
+            spriv = jkey(gk.key_from_record(plan["sender"]), "dict", True) if plan["sender"] else None
+            tok2 = jwe.encrypt_json(obj, None, algorithms=jp.ALL_NAMES, sender_key=spriv)
+            o3 = jp.jose_decrypt(copy.deepcopy(tok2), plan, "all" if len(plan["recipients"]) == 1 or not plan.get("headerless") else "one", case["form"])
+            if o3.plaintext != pt:
+                f["C04:reseal:plaintext-differs"] = "decrypt -> amend -> encrypt -> decrypt returns other data"
+            elif o3.protected.get("cty") != "amended":
+                f["C04:reseal:amendment-lost"] = f"protected header after re-sealing: {o3.protected!r}"
+        except Exception as e:
+            f[f"C04:reseal-raises:{exc_key(e)}"] = f"decrypt_json -> amend protected header -> encrypt_json -> decrypt_json: {type(e).__name__}: {e}"
     return f
 
 
